@@ -6,7 +6,7 @@ fn esc(s: &str) -> String {
     crate::wire::escape(s).replace('|', "\\u{7c}")
 }
 
-const NAMES_PLAIN: [&str; 8] = ["addone", "noop", "helmert", "add2", "myop", "stack", "x", "inv"];
+const NAMES_PLAIN: [&str; 11] = ["addone", "noop", "helmert", "add2", "myop", "stack", "x", "inv", "latlon", "longlat", "lonlat"];
 const NAMES_COLON: [&str; 17] = ["m:a", "m:b", "geo:in", "addone:x", "n:c", "m:a_long", "stupid:way", "stupid:addone", "stupid:way_three",
     // not names of anything: a known name with one more part
     "stupid:way:nonexistent", "stupid:addone:v2", "m:a:x", "stupid:",
@@ -110,6 +110,28 @@ pub fn redefinition_histories(g: &mut Gen) {
 pub fn generate(g: &mut Gen, thorough: bool) {
     let n = if thorough { 12000 } else { 1200 };
     let data = super::probe_data(2);
+    // every built-in name is a name a user may take: the other names of the no-operation are names of their own
+    for kind in ["default", "plain"] {
+        for (taken, other) in [("latlon", "noop"), ("longlat", "latlong"), ("lonlat", "latlon"), ("noop", "longlat"), ("latlong", "noop")] {
+            for ctor in ["u:add2", "u:oneway3"] {
+                let calls = vec![
+                    format!("O|{}", esc(taken)),
+                    format!("R|{}|{ctor}", esc(taken)),
+                    format!("O|{}", esc(taken)),
+                    format!("O|{}", esc(other)),
+                    format!("O|{}", esc(&format!("addone | {taken} | {other}"))),
+                    format!("A|0|F|{data}"),
+                    format!("A|1|F|{data}"),
+                    format!("A|2|F|{data}"),
+                    format!("A|3|F|{data}"),
+                    format!("A|3|I|{data}"),
+                ];
+                let line = format!("{}\t{}", kind, calls.join("\t"));
+                g.push(format!("HIST\t{line}"), "hist-names-of-the-no-operation", true);
+                g.push(format!("S_C18\t{line}"), "oracle-hist-names-of-the-no-operation", true);
+            }
+        }
+    }
     for _ in 0..n {
         let kind = *g.rng.pick(&["default", "new", "plain", "plain-new"]);
         let len = 3 + g.rng.below(14);
